@@ -30,7 +30,7 @@ def enc(t, v=None):
 
 _TEXTS = ["3", "3.0", " 3 ", "-7", "3.x", "abc", "true", "T", "False", "f", "0", "1", "yes",
           "2020-01-01", "2020-13-01", "2020-1-1", "12:30:00", "25:00:00", "12:30",
-          "2020-01-01 12:30:00", "2020-01-01T12:30:00", "1e3", "inf", "nan", "1e400", "0x10",
+          "2020-01-01 12:30:00", "2020-01-01T12:30:00", "0999-12-31 23:59:59", "0001-01-01", "0001-01-01 00:00:00", "1e3", "inf", "nan", "1e400", "0x10",
           "[1, 2]", "[1,2]", "[a]", "[", "[]", "(1;2)", "(1;2", "(1;2;3)", "[(1;2),(3;4)]",
           "(a)", "()", "(;)", " (1;2) ", "a\nb", " a ", "", "http://x.org/a?b=c,d"]
 
